@@ -214,6 +214,8 @@ class MSess:
 
         def reset(document=None, append_to_history=False):
             r = o_reset(document, append_to_history)
+            if getattr(self, "in_new_prompt", False):
+                return r
             if self.cur is None:
                 self.problems.append("Buffer.reset called outside a dispatch")
             else:
@@ -272,6 +274,24 @@ class MSess:
             self.events.append({"kind": "redo", "i": tok[1], "pre": pre, "post": self.states(), "stacks": self.stacks(),
                                 "f_after": self.focus_index()})
             self.last = self.states()
+        elif tok[0] == "!new":
+            # the next prompt on the same session, with the calls PromptSession.prompt() / run_async make
+            from prompt_toolkit.document import Document
+            if not self.app.is_done:
+                self.app.exit(result=None)
+            self.in_new_prompt = True
+            try:
+                self.bufs[0].reset(Document(tok[1], tok[2]))
+                self.app.reset()
+            finally:
+                self.in_new_prompt = False
+            self.app.future = asyncio.get_event_loop().create_future()
+            self.events.append({"kind": "newprompt", "i": 0, "pre": pre, "post": self.states(), "stacks": self.stacks(),
+                                "f_after": self.focus_index()})
+            self.last = self.states()
+            if self.focus_index() < 0:
+                self.lost = "focus left the tracked buffers"
+                return False
         elif tok[0] == "!async":
             b = self.bufs[tok[1]]
             try:
@@ -396,6 +416,10 @@ def multi_case_to_model(res):
             evs.append([2, e["i"]])
         elif k == "async":
             evs.append([7, e["i"], S(e["post"][e["i"]][0]), e["post"][e["i"]][1]])
+        elif k == "newprompt":
+            evs.append([5, e["i"], S(e["post"][e["i"]][0]), e["post"][e["i"]][1], e["f_after"]])
+            if any(e["post"][j] != e["pre"][j] for j in range(nb) if j != e["i"]):
+                problems.append("a new prompt changed a buffer other than the default buffer")
         out.append([sv, e["f_after"], _bufs_sx(e["post"], e["stacks"])])
     docs = [[S(t), c] for (t, c) in res["init"]]
     extra = [list(r[0]) for r in res["extra"]]
@@ -486,6 +510,12 @@ def multi_oracle(res):
                     o4_buf.add(i)
             elif k == "cpr":
                 proj.append({"kind": "cpr", "pre": pre, "post": post})
+            elif k == "newprompt":
+                prev_cls = None         # KeyProcessor.reset() forgets the previous handler
+                proj.append({"kind": "reset"})
+                if e["i"] == i:
+                    atoms.append({"kind": "reset", "pre": pre, "post": post, "redo_len_after": 0})
+                    start[i] = post[0]
         if i in o4_buf:
             # O4: the next keystroke of that binding is a "repeat" for the key processor: no snapshot,
             # so the redo history survives the edit.  Landings and redo exactness are still judged.
@@ -527,6 +557,10 @@ def multi_specs(chk):
         ("prompt", "emacs", [("xy", 2)], ["c-s", "a", "b", "undo", ["!redo", 1], "enter", "undo", ["!redo", 0]]),
         ("prompt", "vi", [("one two", 0)], ["esc", "/", "h1", "enter", "x", "u", "u", "u"]),
         ("prompt", "vi", [("one", 3)], ["a", "esc", "?", "a", "b", "esc", "u", "i", "enter", "u", "u"]),
+        # a new prompt while the search buffer is focused / right after a typed run / with redo entries pending
+        ("prompt", "emacs", [("abc", 3)], ["a", "b", "c-r", "h", ["!new", "xyz", 3], "a", "b", "c-g", "a", "b", "undo", "undo"]),
+        ("prompt", "emacs", [("abc", 3)], ["a", "b", ["!new", "xyz", 3], "a", "b", "undo", ["!redo", 0], "undo", "undo"]),
+        ("prompt", "emacs", [("", 0)], ["a", "c-w", "undo", ["!new", "q", 1], ["!redo", 0], "c-r", "1", "enter", "undo", "undo"]),
         # the asynchronous completer inserts the common prefix outside any dispatch
         ("prompt", "emacs", [("", 0)], ["a", "l", "p", "tab", "a", "undo", "undo", "undo"]),
         ("prompt", "emacs", [("", 0)], ["a", "l", "tab", "undo", ["!redo", 0], "undo", "undo"]),
@@ -587,6 +621,9 @@ def multi_specs(chk):
                 toks.append(["!focus", rng.randrange(nb)])
             elif r < 0.15:
                 toks.append(["!async", rng.randrange(nb), rng.randrange(4)])
+            elif r < 0.18 and fl == "prompt":
+                t_ = rng.choice(["", "abc", "two\nlines"])
+                toks.append(["!new", t_, rng.randint(0, len(t_))])
             else:
                 toks.append(rng.choices(names, weights)[0])
         specs.append({"flavour": fl, "mode": mode, "docs": docs, "history": hist if rng.random() < 0.8 else [], "tokens": toks, "src": "random"})
@@ -665,6 +702,8 @@ def run_multi(chk, cases, impl_results, oracle_bad, rows0, spec_of):
                     stats["outside_changes_by_completer"] += 1
             elif k == "redo":
                 stats["direct_redos"] += 1
+            elif k == "newprompt":
+                stats["new_prompts"] = stats.get("new_prompts", 0) + 1
         chk.count_case(case, any(e["kind"] == "key" and any(p != q for (_, p, q) in e["undos"]) for e in res["events"]))
         fails, ost = multi_oracle(res)
         stats["reach_start_checked"] += ost["reach_start_checked"]
@@ -746,15 +785,83 @@ def edit_case_to_model(res):
     return [4, S(init[0]), init[1], cmds], out, atoms, problems
 
 
-def run_edit(chk, cases, impl_results, oracle_bad, rows0, spec_of, report):
+KILL_CODES = {"kill_line": 1, "kill_word": 2, "unix_word_rubout": 4, "backward_kill_word": 5, "unix_line_discard": 6,
+              "yank": 7, "yank_pop": 8}
+VI_CODES = {("x", "_delete"): 31, ("X", "_delete_before_cursor"): 32, ("D", "_delete_until_end_of_line"): 33,
+            ("d d", "_delete_line"): 34, ("y y", "_yank_line"): 35, ("p", "_paste"): 36, ("P", "_paste_before"): 37}
+
+
+def edit2_specs(chk):
+    """kills, yanks and single-dispatch Vi operators next to the commands of kind 4"""
+    rng = chk.rng
+    thorough = chk.tier == "thorough"
+    specs = []
+    texts = ["", "abc", "hello world", "one two\nthree four\nfive", "  x y", "界a b-c"]
+    fixed = [
+        ("emacs", "one two three", 4, ["c-k", "undo", "!redo", "c-y", "undo", "undo"]),
+        ("emacs", "one two three", 0, ["M-d", "M-d", "right", "c-y", "M-y", "undo", "undo", "undo"]),
+        ("emacs", "ab cd ef", 8, ["c-w", "c-w", "a", "c-y", "left", "c-u", "undo", "undo2", "!redo"]),
+        ("emacs", "x y", 3, ["M-bs", "c-y", "c-y", "M-y", "bs", "M-y", "undo", "undo"]),
+        ("vi", "one two\nthree", 0, ["a", "b", "esc", "x", "x", "p", "u", "u", "dd", "P", "u", "!redo"]),
+        ("vi", "one\ntwo\nthree", 5, ["esc", "yy", "p", "D", "X", "u", "u", "u", "u"]),
+    ]
+    for mode, t, c, toks in fixed:
+        specs.append({"mode": mode, "text": t, "cursor": c, "history": [], "tokens": toks, "tail": mode == "emacs", "src": "scenario", "edit": True})
+    we = {"a": 6, "b": 4, "sp": 4, "bs": 4, "del": 2, "left": 4, "right": 3, "cpr": 1, "undo": 7, "undo2": 2,
+          "c-k": 4, "M-d": 4, "c-w": 4, "M-bs": 3, "c-u": 2, "c-y": 5, "M-y": 3, "home": 0, "end": 0}
+    wi = {"a": 6, "b": 4, "sp": 4, "bs": 3, "left": 2, "cpr": 1}
+    wn = {"x": 6, "X": 3, "D": 2, "dd": 3, "yy": 3, "p": 4, "P": 3, "u": 8, "cpr": 1, "esc": 1}
+    for i in range(1200 if thorough else 130):
+        mode = "vi" if i % 3 == 2 else "emacs"
+        t = rng.choice(texts)
+        toks = []
+        if mode == "emacs":
+            names = [k for k in we if we[k]]
+            for _ in range(rng.randint(4, 36 if thorough else 26)):
+                toks.append("!redo" if rng.random() < 0.06 else rng.choices(names, [we[k] for k in names])[0])
+        else:
+            for _ in range(rng.randint(0, 8)):
+                toks.append(rng.choices(list(wi), list(wi.values()))[0])
+            toks.append("esc")
+            for _ in range(rng.randint(3, 24)):
+                toks.append("!redo" if rng.random() < 0.06 else rng.choices(list(wn), list(wn.values()))[0])
+        specs.append({"mode": mode, "text": t, "cursor": rng.randint(0, len(t)), "history": [], "tokens": toks,
+                      "tail": mode == "emacs" and rng.random() < 0.8, "src": "random", "edit": True})
+    return specs
+
+
+def edit2_case_to_model(res):
+    case, out, atoms, _ = edit_case_to_model(res)
+    cmds, problems = [], []
+    k = 0
+    for e in res["events"]:
+        cur = case[3][k]
+        k += 1
+        if e["kind"] != "key" or e["role"] == 7 or e["row"][1] == 1 or e["role"] in EDIT_ROLES:
+            cmds.append(cur)
+            continue
+        short = e["name"].split(".")[-1]
+        if e["name"].endswith("named_commands." + short) and short in KILL_CODES:
+            cmds.append([8, e["h"], [KILL_CODES[short], []], e["arg"]])
+        elif (e["keys"], short) in VI_CODES:
+            cmds.append([8, e["h"], [VI_CODES[(e["keys"], short)], []], e["arg"]])
+        elif e["keys"] == "escape" and short == "_back_to_navigation":
+            cmds.append([9, e["h"]])
+        else:
+            problems.append("binding %s -> %s has no edit model (role %d)" % (e["keys"], e["name"], e["role"]))
+            cmds.append(cur)
+    return [6, case[1], case[2], cmds], out, atoms, problems
+
+
+def run_edit(chk, cases, impl_results, oracle_bad, rows0, spec_of, report, second=False):
     c = _c07()
     stats = {"sessions": 0, "commands": 0, "by_model": {}, "effective_undos": 0, "reach_start_checked": 0, "group_runs_checked": 0}
-    for spec in edit_specs(chk):
+    for spec in (edit2_specs(chk) if second else edit_specs(chk)):
         res = c.run_key_case_sync(spec)
         if res.get("hang"):
             chk.violation("oracle", "editing session did not finish within 20 s", {"clause": "hang", "level": "edit"}, {"spec": spec})
             continue
-        case, out, atoms, problems = edit_case_to_model(res)
+        case, out, atoms, problems = (edit2_case_to_model if second else edit_case_to_model)(res)
         i = len(cases)
         cases.append(case)
         impl_results.append(out)
